@@ -408,6 +408,23 @@ def rule_remove(ctx, ci):
             ok = got == want
         ctx.check(ok, R, "%s[text %r]" % (fn_name, operand), fx.where(), "%s(%r) on %s" % (fn_name, operand, ["%s-%d" % x for x in real]),
                   "leaves %s, the set model predicts %s" % (got, want))
+    # a note may sit in octave -1 (B## voiced just above C-0 does): removing it "with octave" takes that one only
+    low = [("B##", -1), ("C", 0), ("B##", 3)]
+    for qo, want in ((-1, low[1:]), (3, low[:2]), (None, [low[1]])):
+        def mk5(qo=qo):
+            ns = [AObj(noteci, {"name": n, "octave": o, "velocity": 64, "channel": 1}, name="%s%d" % (n, o)) for n, o in low]
+            return [AObj(ci, {"notes": ns}, name="c"), "B##"] + ([qo] if qo is not None else [])
+        try:
+            paths = run_method(repo, fi, mk5)
+        except CannotDecide as e:
+            raise AnalysisError("remove_note('B##', %r): %s" % (qo, e))
+        ok = len(paths) == 1 and paths[0].kind == "return"
+        got = [(p.kind, short(repr(p.value), 60)) for p in paths]
+        if ok:
+            got = [(x.attrs["name"], x.attrs["octave"]) for x in paths[0].interp.args[0].attrs["notes"]]
+            ok = got == want
+        ctx.check(ok, R, "remove_note[B##,%s of octaves -1 and 3]" % (qo,), fi.where(), "remove_note('B##'%s) on B##--1, C-0, B##-3" % ("" if qo is None else ", %d" % qo),
+                  "leaves %s, the set model predicts %s" % (got, want))
     fd = repo.find_method(ci, "remove_duplicate_notes")
 
     def mk3():
